@@ -330,7 +330,9 @@ pub fn check_c03(prop: &str, c: &Case, b: &Built, rep: &mut Report) {
                 if !((area - a2).abs() <= tl.tol_a + tr.tol_a) {
                     rep.violations.push(Violation::new(prop, "c03.periodic_area", format!("periodic face {l}->{r} shift {sh:?}: areas {:e} vs {:e}", area, a2), Some(c), json!({"left": l, "right": r})));
                 }
-                if (*normal + *n2).abs().max_element() > 64. * s.u * (1. + s.m / s.lmin) {
+                // each normal is (g_l - h) / |g_l - h| with coordinates of magnitude M: its error is ~ u M / distance
+                let dist = (pts[*r] + DVec3::new(sh[0] as f64 * w.x, sh[1] as f64 * w.y, sh[2] as f64 * w.z) - pts[*l]).length();
+                if (*normal + *n2).abs().max_element() > 64. * s.u * (1. + s.m / dist.max(1e-300)) {
                     rep.violations.push(Violation::new(prop, "c03.periodic_normal", format!("periodic face {l}->{r} shift {sh:?}: normals {:?} and {:?} are not opposite", normal, n2), Some(c), json!({"left": l, "right": r})));
                 }
             }
